@@ -1000,6 +1000,8 @@ def broadcast(a, b):
                 continue
             if sp == 'drop':
                 data = np.take(data, 0, axis=len(shape))
+                if not isinstance(data, np.ndarray):
+                    data = _box(data)
             else:
                 shape.append(x)
         return data.reshape(tuple(shape)) if data.shape != tuple(shape) else data
